@@ -14,11 +14,13 @@ pub struct FragOpts {
     /// constant frame interval with >= 2 samples per segment (C11 clause)
     pub constant_interval_pct: u64,
     pub allow_empty_samples: bool,
+    /// draw dts/pts from the integer-extreme pool
+    pub hostile_values: bool,
 }
 
 impl Default for FragOpts {
     fn default() -> Self {
-        FragOpts { max_ops: 50, bad_dts_pct: 8, big: false, hostile_cfg: false, constant_interval_pct: 30, allow_empty_samples: true }
+        FragOpts { max_ops: 50, bad_dts_pct: 8, big: false, hostile_cfg: false, constant_interval_pct: 30, allow_empty_samples: true, hostile_values: false }
     }
 }
 
@@ -129,7 +131,7 @@ pub fn gen_frag_ops(r: &mut Rng, o: &FragOpts) -> Vec<FOp> {
             continue;
         }
         if c < 55 {
-            let bad = r.chance(o.bad_dts_pct, 100) && dts > 0;
+            let mut bad = r.chance(o.bad_dts_pct, 100) && dts > 0;
             let d = if bad {
                 dts - 1 - r.below(dts.min(5000))
             } else {
@@ -139,10 +141,20 @@ pub fn gen_frag_ops(r: &mut Rng, o: &FragOpts) -> Vec<FOp> {
                     2 => r.below(100_000),
                     _ => step,
                 };
-                dts + inc
+                dts.saturating_add(inc)
             };
             let cts: i64 = if reorder { r.range(0, 9000) as i64 - 3000 } else { 0 };
-            let pts = (d as i64 + cts).max(0) as u64;
+            let mut pts = (d as i128 + cts as i128).clamp(0, u64::MAX as i128) as u64;
+            let mut d = d;
+            if o.hostile_values && r.chance(1, 3) {
+                let pool = [0u64, 1, u32::MAX as u64 - 1, u32::MAX as u64, 1 << 32, (1 << 32) + 1, 1 << 53, 1 << 63, u64::MAX - 3000, u64::MAX - 1, u64::MAX];
+                if r.chance(1, 2) {
+                    d = *r.pick(&pool);
+                }
+                if r.chance(1, 2) {
+                    pts = *r.pick(&pool);
+                }
+            }
             let len = if o.allow_empty_samples && r.chance(1, 25) {
                 0
             } else if o.big {
@@ -151,6 +163,9 @@ pub fn gen_frag_ops(r: &mut Rng, o: &FragOpts) -> Vec<FOp> {
                 r.range(1, 80) as usize
             };
             ops.push(FOp::Write { pts, dts: d, data: r.bytes(len), sync: r.chance(1, 4) });
+            if d < dts {
+                bad = true;
+            }
             if !bad {
                 dts = d;
             }
